@@ -324,7 +324,7 @@ pub mod harness {
     #[derive(PartialEq, Clone, Copy, Debug)] enum St { NotStarted, Started, Refused, Finished, Dropped }
     fn poll_once<F: Future + ?Sized>(f: Pin<&mut F>) -> Poll<F::Output> { let w = std::task::Waker::noop(); let mut cx = Context::from_waker(&w); f.poll(&mut cx) }
     fn inside_of(w: &Arc<Mutex<World>>, p: PeerId) -> usize { w.lock().unwrap().inside.iter().filter(|x| x.1 == p).count() }
-    pub fn inflight_schedules(ch: &mut Chooser) { // @EOBL [C18] @BOUNDED the real InflightLimitLayer / InflightLimit (constructors, layer, call with its async block) on the model of tokio's Semaphore, for a limit of 1 or 2, Block or ReturnError, REQUESTS requests each from peer 1, peer 2 or without identity, issued through one layered service, a clone of it, or a second service built by the same layer, and EVERY schedule of STEPS actions out of: start the next request and poll it once (the thorough tier: also start it without polling), poll a started request, let a request inside the wrapped service finish, drop a started request: at every instant at most `limit` requests of one peer are inside the wrapped service; a request polled while its peer is below the limit gets in (one peer's load never takes another's slot); at the limit it waits (Block) or is refused with TooManyRequests without ever reaching the service (ReturnError); a request without identity is refused with InternalServerError; nothing reaches the service twice; and after everything has finished, failed or been dropped every peer can again have exactly `limit` requests inside (no slot leaks, none appears)
+    pub fn inflight_schedules(ch: &mut Chooser) { // @EOBL [C18,C12] @BOUNDED the real InflightLimitLayer / InflightLimit (constructors, layer, call with its async block) on the model of tokio's Semaphore, for a limit of 1 or 2, Block or ReturnError, REQUESTS requests each from peer 1, peer 2 or without identity, issued through one layered service, a clone of it, or a second service built by the same layer, and EVERY schedule of STEPS actions out of: start the next request and poll it once (the thorough tier: also start it without polling), poll a started request, let a request inside the wrapped service finish, drop a started request: at every instant at most `limit` requests of one peer are inside the wrapped service; a request polled while its peer is below the limit gets in (one peer's load never takes another's slot); at the limit it waits (Block) or is refused with TooManyRequests without ever reaching the service (ReturnError); a request without identity is refused with InternalServerError; nothing reaches the service twice; and after everything has finished, failed or been dropped every peer can again have exactly `limit` requests inside (no slot leaks, none appears)
         let limit = 1 + ch.below(2) as usize;
         let mode = if ch.any_bool() { WaitMode::Block } else { WaitMode::ReturnError };
         let block = matches!(mode, WaitMode::Block);
